@@ -18,11 +18,11 @@ def c08_runs(tier):
         runs.append(McRun('c08_accounting', 'acct', dict(n=n, h=h, t1=t1, oracle=oracle, mult=mult, smult=smult), bound=bound, mode=mode, budget=budget))
 
     quick = tier == 'quick'
-    b0 = 0 if quick else 1
-    # ---- every history of the family, default schedules plus (thorough) one deviation
+    # ---- every history of the family under the default schedules (bound 0: T0 runs on into resize() while the woken
+    # workers have not run yet, so the work still sits in rings / steal rings / central queue when resize drains them)
     for n in (1, 2):
-        add(n, 'kXZ', bound=b0, budget=400)      # workers parked, submit by any path, resize while the work still sits there
-        add(n, 'XZ', bound=b0, budget=400)       # same with the workers still starting up
+        add(n, 'kXZ')                            # workers parked, submit by any path, then any resize
+        add(n, 'XZ')                             # same with the workers still starting up
     add(2, 'kXZ', oracle='probe')                # public effect only: schedule() on the idle pool must queue
     # sanitizer legs (early, so that a tier cut short by machine load still has them)
     add(1, 'kr1z2', bound=1, mode='tsan', budget=150)
@@ -40,25 +40,33 @@ def c08_runs(tier):
     # ---- one deviation on named histories (ring fast path, steal ring, central queue; grow, shrink, to zero)
     for n, h in ((1, 'kr1Z'), (1, 'kdZ'), (1, 'b2Z'), (2, 'kr2z1'), (2, 'kC2z1'), (2, 'L2z0z1')):
         add(n, h, bound=1, budget=120)
-    if quick:
-        add(1, 'XZ', bound=1, budget=120)        # last: the whole n=1 family with one deviation (~14k executions)
+    add(1, 'XZ', bound=1, budget=120)            # the whole n=1 family with one deviation (~14k executions)
     if not quick:
-        for n, h in ((2, 'XZX'), (1, 'kXZkXZ'), (1, 'XwZX'), (0, 'XZX'), (2, 'XpX'), (2, 'kXz1X'), (1, 'XZXZ')):
-            add(n, h, budget=400)
-        add(1, 'XZXZ', oracle='probe', budget=400)
+        # ---- two deviations on the smallest named histories (first: they are what thorough adds)
+        for n, h in ((1, 'kr1z2'), (1, 'kdz2'), (1, 'qz0z1'), (1, 'b2z2'), (1, 'r1w'), (2, 'kr2z1')):
+            add(n, h, bound=2, budget=300)
+        # ---- the families with one deviation
+        add(1, 'kXZ', bound=1, budget=300)
+        add(2, 'kXz1', bound=1, budget=400)
+        add(2, 'Xz1', bound=1, budget=400)
         # a second thread submitting while T0 resizes (to a size >= 1: a submission racing resize(0) can strand its task,
         # which is another property's business)
         add(1, 'z2', t1='Y', bound=1, budget=200)
         add(2, 'z1k', t1='Y', bound=1, budget=300)
         add(1, 'qz2', t1='q', bound=1, budget=200)
         add(1, 'kr1z2', t1='Y', bound=1, budget=300)
-        # ---- two deviations on the smallest named histories
-        for n, h in ((1, 'kr1z2'), (1, 'kdz2'), (1, 'qz0z1'), (1, 'b2z2'), (1, 'r1w'), (2, 'kr2z1')):
-            add(n, h, bound=2, budget=400)
+        # ---- longer families under the default schedules
+        for n, h in ((1, 'kXZkXZ'), (1, 'XwZX'), (0, 'XZX'), (2, 'XpX'), (1, 'XZXZ'), (2, 'XZX'), (2, 'kXz1X')):
+            add(n, h, budget=300)
+        add(1, 'XZXZ', oracle='probe', budget=300)
+        # the largest ones last (cut first when the machine is loaded)
+        add(2, 'kXZ', bound=1, budget=400)
+        add(2, 'XZ', bound=1, budget=400)
+        add(1, 'kXZkXZ', bound=1, budget=400)
     return runs
 
 
-reg('C08', level='model_checking', runs=c08_runs, quick_budget_s=420, thorough_budget_s=3000,
+reg('C08', level='model_checking', runs=c08_runs, quick_budget_s=400, thorough_budget_s=1800,
     technique='stateless model checking of the real ThreadPool with TaskSet / ConcurrentTaskSet: histories of submissions, waits and resizes explored jointly with the schedules of the workers; the private counter workRemaining_ is read at model-level quiescent points (-fno-access-control, no hook)',
     level_text='Histories of <= 4 steps (plus check points) over {ThreadPool::schedule, schedule(FQ), scheduleBulk; TaskSet::schedule, schedule(FQ), scheduleBulk (ring fast path count*4 >= N && count <= N && numRings >= count, and the standard path), scheduleBulk(FQ); ConcurrentTaskSet kHeavy schedule / schedule(FQ) / scheduleBulk (steal-ring placement) and kLightweight schedule / scheduleBulk; wait; resize(0|1|2); setSignalingWake(false|true)} on pools that start with 0, 1 or 2 threads, poolLoadMultiplier 1 (and 32). Families "any submission, any resize", "parked workers, any submission, any resize", two rounds, submission after the resize, poll mode: every member of the family, quick under the default schedules (bound 0: the submitting thread runs on into resize() while the woken workers have not run yet, so the work still sits in the rings / steal rings / central queue when resize drains them) and named histories with <= 1 deviation; thorough: families with <= 1 deviation, named histories with <= 2, and a second thread submitting during the resize. Quiescent point = every functor finished, no call in progress, every worker parked (totalSleeping == numThreads: a worker flushes its batched decrements before it registers as sleeping) or no workers. Oracle: workRemaining_ == 0 and poolLoadFactor_ == numThreads*multiplier, i.e. the state of a fresh pool; in probe mode only the public effect: schedule() on the idle pool must queue, not run inline.',
     level_note='SC interleavings. In poll mode workers never register as sleeping, so quiescence is only established after a final resize(0). TSan and ASan legs on two named histories.',
